@@ -6,7 +6,7 @@ Import ListNotations.
 From GA.Base Require Import Bytes Case Align.
 From GA.Gen Require Import Alpha.
 From GA.Model Require Import Container.
-From GA.Proofs Require Import ContainerProofs.
+From GA.Proofs Require Import ContainerProofs ConcatProofs.
 
 (* The invariant: every index entry designates an object of the list carrying
    that name, every name absent from the index is absent from the list, object
@@ -106,3 +106,16 @@ Theorem C01_shuffle_is_permutation :
   forall draws n l, Permutation (shuffle_objs draws n l) l.
 Proof. exact shuffle_objs_perm. Qed.
 Print Assumptions C01_shuffle_is_permutation.
+
+(* a successful concatenation (Concat goes through the name index and the alignment's AddSequence) leaves
+   an index-consistent alignment whose rows all have the reported length *)
+Theorem C01_concat_keeps_invariant :
+  forall st calpha c, Inv st -> snd (step st (OpConcat calpha c)) = true -> Inv (fst (step st (OpConcat calpha c))).
+Proof. exact concat_inv. Qed.
+Print Assumptions C01_concat_keeps_invariant.
+
+(* every history made of covered operations and successful concatenations keeps the invariant *)
+Theorem C01_invariant_histories_with_concat :
+  forall h kind alpha, all_allowed h (empty_state kind alpha) = true -> Inv (run h (empty_state kind alpha)).
+Proof. intros h kind alpha Ha. apply run_inv_with_concat; [exact Ha | apply Inv_empty]. Qed.
+Print Assumptions C01_invariant_histories_with_concat.
